@@ -139,9 +139,10 @@ def presentation_variants() -> List[Tuple[str, List[Str]]]:
     g1 = [T(ind, AD, ":\t", by, "\t", *core, tail) for ind in ("  ", "", "      ") for by in (BYTES[2], "48 8b 05 ")
           for tail in ("", "        # ", "   ")]
     g1 += [T("  ", AD, ":\t", BYTES[2], "\t", *core, "        # ", TG, " <", SY, ">")]
+    g1 += [T("  ", AD, ":\t", BYTES[2], "\t", *core, "# glued comment"), T("  ", AD, ":\t", BYTES[2], "\t", *core, "#")]
     call = [T(ind, AD, ":\t", BYTES[3], "\tcall   ", TG, tail) for ind in ("  ", "    ") for tail in ("", " <puts@plt>", " <main+0x1a>")]
     call += [T("  ", AD, ":\t", BYTES[3], "\tcall   ", TG, " <", SY, ">")]
-    return [("k(a),%r in 19 presentations", g1), ("direct call in 7 presentations", call)]
+    return [(f"k(a),%r in {len(g1)} presentations", g1), (f"direct call in {len(call)} presentations", call)]
 
 
 def other_lines() -> List[Tuple[str, Any]]:
@@ -278,8 +279,8 @@ def deref_end_to_end(ctx, I: Interp, rule_match: str, rule_reject: str) -> int:
                         ctx.check(not bad, rule_reject, f"$deref[{'a' + ('', ',b', ',b,c')[bc] + ('' if rule_value is None else ',k')}; {flags}]",
                                   f"also accepts {other.render()}"[:160], "an operand with an extra or a missing component is not accepted")
     # a step the matcher cannot decide is not a verdict: fail closed, unless a violation was already established
-    if undecided and not ctx.findings:
-        raise AnalysisError(f"deref end-to-end undecided ({len(undecided)} cases): {undecided[0]}")
+    for u in undecided:
+        ctx.defer(f"deref end-to-end undecided: {u}")
     return n
 
 
